@@ -158,6 +158,12 @@ Theorem C02_bcdd_ok_b_spec : forall s, bcok_b s = true <-> BcOK s.
 Proof. exact bcok_b_spec. Qed.
 Print Assumptions C02_bcdd_ok_b_spec.
 
+(** the interpreter the drivers run on lifted snapshots is [semc] *)
+Theorem C02_bcdd_sem_edge : forall s e c, s_kind s = KBcdd ->
+  sem_edge s e c = option_map (fun b : bool => if b then 1%N else 0%N) (semc s (S (nlevels s)) e c).
+Proof. exact sem_edge_bcdd. Qed.
+Print Assumptions C02_bcdd_sem_edge.
+
 (** [reduce]: equal children are merged, the then-edge is stored untagged and
     its complement moved to the else-edge and the returned edge; the result
     denotes the Shannon combination of the two children *)
